@@ -63,8 +63,8 @@ def clean_tree(tree, data=None):
 
     idx_map = {}
 
-    for data_points, node in node_map.items():
-        idx_map[node] = sorted(data_points)
+    for old_node, node in node_map.items():
+        idx_map[node] = sorted(tree.nodes[old_node]["own"])
 
     nx.set_node_attributes(new_tree, name="idxs", values=idx_map)
 
@@ -114,12 +114,13 @@ def _relabel(node, transformed, original):
 
     result = frozenset(result)
 
-    transformed.add_node(result)
+    # Nodes stay keyed by clade, two clades can have the same (empty) set of own data points
+    transformed.add_node(node, own=result)
 
     for _, children in original.out_edges(node):
-        transformed.add_edge(result, _relabel(children, transformed, original))
+        transformed.add_edge(node, _relabel(children, transformed, original))
 
-    return result
+    return node
 
 
 def roots(graph):
